@@ -70,11 +70,15 @@ func addrOf(tag string) net.IP {
 		return nil
 	}
 	k, _ := strconv.Atoi(tag[1:])
-	if k%2 == 0 {
+	// one address, two spellings: net.IP holds an IPv4 address in 4 or in 16 bytes (what net.ParseIP / net.IPv4 give, and what
+	// a handler gets from the wire with To4()); an owner is an ADDRESS, so the spelling changes from call to call
+	if (int64(k)+atomic.AddInt64(&ntSpellTurn, 1))%2 == 0 {
 		return net.IP{10, 0, 0, byte(k)} // 4-byte form
 	}
 	return net.IPv4(10, 0, 0, byte(k)) // 16-byte form
 }
+
+var ntSpellTurn int64
 
 func tagOf(ip net.IP) string {
 	v4 := ip.To4()
